@@ -31,6 +31,15 @@
 ; (sound abstraction; functions under contract opt in with `abstract_rem int`).
 (declare-fun srem64 ((_ BitVec 64) (_ BitVec 64)) (_ BitVec 64))
 
+;; block policy
+; Host selection policies (C11): what an interface value stands for.
+;  sel_info(s)  the host a SelectedHost denotes (Info() returns it on every call)
+;  tier_max(t)  MaxHostTier() of a HostTierer (HostTier never exceeds it)
+; sig sel_info(any) *HostInfo
+; sig tier_max(any) uint
+(declare-fun sel_info (Iface) Int)
+(declare-fun tier_max (Iface) (_ BitVec 64))
+
 ;; block mm3
 ; Cassandra org.apache.cassandra.utils.MurmurHash.hash3_x64_128 (seed 0), first word.
 ; The running state (h1,h2) is packed into 128 bits: h1 in the high half.
